@@ -18,6 +18,238 @@ class Horizon(BaseException):
     pass
 
 
+# ---------------------------------------------------------------------------------------------------------------------
+# Synchronisation objects the scheduler owns.  A real threading.Lock held by a thread that the scheduler has suspended at a
+# line would block the other thread for real (a hang of the harness, not a behaviour of the library), so the library's
+# locks, semaphores, events and conditions are replaced by cooperative ones: blocking = "disabled until the predicate
+# holds", and no enabled thread at all = deadlock, reported as an observation.
+CURRENT = None        # the scheduler driving the controlled threads right now (None outside an execution)
+
+
+def _me():
+    s = CURRENT
+    if s is None:
+        return None, None
+    return s, getattr(s.tls, "tid", None)
+
+
+class CoopLock:
+    def __init__(self, reentrant=False):
+        self.reentrant = reentrant
+        self.owner = None
+        self.count = 0
+
+    def acquire(self, blocking=True, timeout=-1):
+        s, me = _me()
+        who = me if me is not None else "outside"
+        if self.owner is not None and not (self.reentrant and self.owner == who):
+            if not blocking:
+                return False
+            if s is None or me is None:
+                raise RuntimeError("cooperative lock would block outside a scheduled thread")
+            if not s.wait_until(lambda: self.owner is None, timed=(timeout is not None and timeout >= 0)):
+                return False
+        self.owner = who
+        self.count += 1
+        return True
+
+    def release(self):
+        if self.owner is None:
+            raise RuntimeError("release unlocked lock")
+        self.count -= 1
+        if self.count <= 0:
+            self.owner = None
+            self.count = 0
+
+    def locked(self):
+        return self.owner is not None
+
+    def _coop_state(self):
+        return ("lock", self.owner, self.count)
+
+    def _is_owned(self):
+        return self.owner is not None
+
+    def __enter__(self):
+        self.acquire()
+        return self
+
+    def __exit__(self, *a):
+        self.release()
+
+
+class CoopSemaphore:
+    def __init__(self, value=1, bounded=False):
+        self.value = self.initial = value
+        self.bounded = bounded
+
+    def acquire(self, blocking=True, timeout=None):
+        s, me = _me()
+        if self.value <= 0:
+            if not blocking:
+                return False
+            if s is None or me is None:
+                raise RuntimeError("cooperative semaphore would block outside a scheduled thread")
+            if not s.wait_until(lambda: self.value > 0, timed=timeout is not None):
+                return False
+        self.value -= 1
+        return True
+
+    def _coop_state(self):
+        return ("sem", self.value)
+
+    def release(self, n=1):
+        if self.bounded and self.value + n > self.initial:
+            raise ValueError("Semaphore released too many times")
+        self.value += n
+
+    def __enter__(self):
+        self.acquire()
+        return self
+
+    def __exit__(self, *a):
+        self.release()
+
+
+class CoopEvent:
+    def __init__(self):
+        self.flag = False
+
+    def is_set(self):
+        return self.flag
+
+    def _coop_state(self):
+        return ("event", self.flag)
+
+    isSet = is_set
+
+    def set(self):
+        self.flag = True
+
+    def clear(self):
+        self.flag = False
+
+    def wait(self, timeout=None):
+        s, me = _me()
+        if self.flag or s is None or me is None:
+            return self.flag
+        s.wait_until(lambda: self.flag, timed=timeout is not None)
+        return self.flag
+
+
+class CoopCondition:
+    def __init__(self, lock=None):
+        self.lock = lock if lock is not None else CoopLock(reentrant=True)
+        self.waiters = []
+        self.acquire = self.lock.acquire
+        self.release = self.lock.release
+
+    def __enter__(self):
+        self.lock.acquire()
+        return self
+
+    def __exit__(self, *a):
+        self.lock.release()
+
+    def _coop_state(self):
+        return ("cond", self.lock._coop_state(), len(self.waiters))
+
+    def wait(self, timeout=None):
+        s, me = _me()
+        tok = [False]
+        self.waiters.append(tok)
+        saved = self.lock.count
+        self.lock.owner, self.lock.count = None, 0
+        ok = True
+        if s is not None and me is not None:
+            ok = s.wait_until(lambda: tok[0], timed=timeout is not None)
+        if tok in self.waiters:
+            self.waiters.remove(tok)
+        self.lock.acquire()
+        self.lock.count = saved
+        return ok
+
+    def wait_for(self, predicate, timeout=None):
+        r = predicate()
+        while not r:
+            if not self.wait(timeout) and timeout is not None:
+                return predicate()
+            r = predicate()
+        return r
+
+    def notify(self, n=1):
+        for tok in self.waiters[:n]:
+            tok[0] = True
+        del self.waiters[:n]
+
+    def notify_all(self):
+        self.notify(len(self.waiters))
+
+    notifyAll = notify_all
+
+
+class _ThreadingProxy:
+    """stands in for the `threading` module inside library modules: synchronisation factories are the cooperative ones,
+    everything else is the real module's"""
+
+    def __init__(self, real):
+        self.__dict__["_real"] = real
+
+    def __getattr__(self, name):
+        return getattr(self._real, name)
+
+    @staticmethod
+    def Lock():
+        return CoopLock()
+
+    @staticmethod
+    def RLock():
+        return CoopLock(reentrant=True)
+
+    @staticmethod
+    def Semaphore(value=1):
+        return CoopSemaphore(value)
+
+    @staticmethod
+    def BoundedSemaphore(value=1):
+        return CoopSemaphore(value, bounded=True)
+
+    Event = CoopEvent
+    Condition = CoopCondition
+
+
+def own_synchronisation(modules):
+    """replace, in the given (library) modules, the `threading` module reference, names imported from it, and lock objects
+    already created at module level by their cooperative counterparts.  Idempotent."""
+    import _thread
+    real = threading
+    lock_t, rlock_t = type(_thread.allocate_lock()), type(threading.RLock())
+    table = {real.Lock: _ThreadingProxy.Lock, real.RLock: _ThreadingProxy.RLock, real.Semaphore: _ThreadingProxy.Semaphore,
+             real.BoundedSemaphore: _ThreadingProxy.BoundedSemaphore, real.Event: CoopEvent, real.Condition: CoopCondition}
+    n = 0
+    for m in modules:
+        for k, v in list(vars(m).items()):
+            if v is real:
+                setattr(m, k, _ThreadingProxy(real)); n += 1
+            elif isinstance(v, lock_t):
+                setattr(m, k, CoopLock()); n += 1
+            elif isinstance(v, rlock_t):
+                setattr(m, k, CoopLock(reentrant=True)); n += 1
+            elif isinstance(v, real.Semaphore):
+                setattr(m, k, CoopSemaphore(v._value, bounded=isinstance(v, real.BoundedSemaphore))); n += 1
+            elif isinstance(v, real.Event):
+                e = CoopEvent(); e.flag = v.is_set(); setattr(m, k, e); n += 1
+            elif isinstance(v, real.Condition):
+                setattr(m, k, CoopCondition()); n += 1
+            else:
+                try:
+                    if v in table:
+                        setattr(m, k, table[v]); n += 1
+                except TypeError:
+                    pass
+    return n
+
+
 class Sched:
     def __init__(self, ctx, targets, want, state_fn=None, horizon=20000, opcodes=None):
         """targets: list of callables (one per thread); want(code)->bool selects traced frames;
@@ -42,6 +274,9 @@ class Sched:
         self.switches = 0
         self.lock = threading.Lock()
         self._cur = 0
+        self.tls = threading.local()
+        self.blocked = {}                 # tid -> predicate the thread is waiting for (cooperative lock/semaphore/event)
+        self.deadlock = None
         self.hits = {}                    # (tid, code, line) -> times this thread has reached this line in this execution
         self._hit = 0
         self._costs = [[0] + [1] * k for k in range(self.n + 1)]
@@ -102,14 +337,14 @@ class Sched:
             ctx.choices.append(c)
             if not c:
                 return
-            enabled = [tid] + [u for u in range(self.n) if u != tid and u not in self.finished]
+            enabled = [tid] + [u for u in range(self.n) if u != tid and u not in self.finished and self._runnable(u)]
             if c >= len(enabled):
                 self._abort("error")
                 self.harness_error = Divergence(f"prefix choice {c} out of range {len(enabled)} at point {i}")
                 raise Pruned()
             ctx.cost += 1
         else:
-            enabled = [tid] + [u for u in range(self.n) if u != tid and u not in self.finished]
+            enabled = [tid] + [u for u in range(self.n) if u != tid and u not in self.finished and self._runnable(u)]
             self._cur = tid
             try:
                 c = ctx.choose(len(enabled), state=self._state_cur if ctx.ex.cache is not None else ("hit", self._hit),
@@ -130,6 +365,40 @@ class Sched:
         if self.abort:
             raise Pruned()
 
+    def _runnable(self, u):
+        p = self.blocked.get(u)
+        return p is None or bool(p())
+
+    def wait_until(self, pred, timed=False):
+        """called by a controlled thread that must block until pred() holds: the thread is disabled and the baton goes to
+        another runnable thread (a choice point of cost 0 when there are several).  No runnable thread: a timed wait expires
+        (returns False); an untimed one is a deadlock - recorded, and the execution is unwound."""
+        tid = self.tls.tid
+        while not pred():
+            self.blocked[tid] = pred
+            others = [u for u in range(self.n) if u != tid and u not in self.finished and self._runnable(u)]
+            if not others:
+                self.blocked.pop(tid, None)
+                if timed:
+                    return False
+                self.deadlock = f"thread {tid} waits for a lock/event no runnable thread can release (blocked: {sorted(self.blocked) + [tid]})"
+                self._abort("deadlock")
+                raise Pruned()
+            c = 0
+            if len(others) > 1:
+                try:
+                    c = self.ctx.choose(len(others), state=None, costs=[0] * len(others), label=("blocked", tid))
+                except Pruned:
+                    self._abort("pruned")
+                    raise
+            self.switches += 1
+            self.sems[others[c]].release()
+            self.sems[tid].acquire()
+            if self.abort:
+                raise Pruned()
+        self.blocked.pop(tid, None)
+        return True
+
     def _state_cur(self):
         return self.state_key(self._cur)
 
@@ -145,6 +414,7 @@ class Sched:
         self.sems[tid].acquire()
         if not self.abort:
             self.started.add(tid)
+            self.tls.tid = tid
             sys.settrace(self._tracer(tid))
             try:
                 self.targets[tid]()
@@ -165,7 +435,11 @@ class Sched:
             return
         if self.abort:
             return
-        rest = [u for u in range(self.n) if u not in self.finished]
+        rest = [u for u in range(self.n) if u not in self.finished and self._runnable(u)]
+        if not rest:
+            self.deadlock = f"thread {tid} finished; the remaining thread(s) wait for a lock/event nobody can release (blocked: {sorted(self.blocked)})"
+            self._abort("deadlock")
+            return
         try:
             c = self.ctx.choose(len(rest), state=lambda: self.state_key(-1 - tid), costs=[0] * len(rest),
                                 label=("exit", tid))
@@ -179,6 +453,14 @@ class Sched:
         self.sems[rest[c]].release()
 
     def run(self, timeout=60):
+        global CURRENT
+        CURRENT = self
+        try:
+            return self._run(timeout)
+        finally:
+            CURRENT = None
+
+    def _run(self, timeout=60):
         threads = [threading.Thread(target=self._wrapper, args=(t,), daemon=True, name=f"vf-{t}") for t in range(self.n)]
         for t in threads:
             t.start()
@@ -214,6 +496,8 @@ class Sched:
 def _canon(v):
     if v is None or isinstance(v, (bytes, int, str, bool)):
         return v
+    if hasattr(v, "_coop_state"):
+        return v._coop_state()
     if isinstance(v, (tuple, list, dict, set, frozenset)):
         return repr(v)
     return type(v).__name__
